@@ -12,7 +12,12 @@ Record pod := mkPod {
   p_id : Z; p_ns : Z; p_node : Z (* 0 = not assigned *); p_wl : Z (* controller owner, 0 = none *);
   p_prio : Z; p_time : Z (* creation time *);
   p_ready : bool; p_forbid : bool (* fails the non-retryable filter: mirror pod *);
-  p_exists : bool }.
+  p_exists : bool;
+  p_term : bool (* deletionTimestamp set (graceful termination) *);
+  p_dead : bool (* phase Failed or Succeeded *) }.
+
+(* kubecontroller.IsPodActive && IsPodReady: what getUnavailablePods calls available *)
+Definition p_avail (v : pod) : bool := p_ready v && negb (p_term v) && negb (p_dead v).
 
 Record wl := mkWl { w_id : Z; w_replicas : Z; w_isjob : bool (* owner kind "Job" *) }.
 
@@ -108,7 +113,7 @@ Definition f_wl (c : cfg) (arb : bool) (st : ast) (p : pod) : bool :=
     if (0 <? mig) && (maxmig <=? mig) then false
     else
       let un := countb (fun v => p_exists v && same_wl p v
-                                 && (negb (p_ready v) || other_pod arb st p v)) (a_pods st) in
+                                 && (negb (p_avail v) || other_pod arb st p v)) (a_pods st) in
       negb (maxun <=? un).
 
 Definition retryable (c : cfg) (arb : bool) (st : ast) (p : pod) : bool :=
@@ -122,8 +127,9 @@ Definition f_expected (c : cfg) (st : ast) (p : pod) : bool :=
     negb ((replicas =? 1) || (replicas =? get_max replicas (c_mm c))
           || (replicas =? get_max replicas (c_mu c))).
 
+(* EvictorFilter.Filter also rejects a pod that is terminating *)
 Definition nonretryable (c : cfg) (st : ast) (p : pod) : bool :=
-  negb (p_forbid p) && f_expected c st p.
+  negb (p_forbid p) && negb (p_term p) && f_expected c st p.
 
 (* ---------- one job of a round: filtering + updatePassedJob / updateFailedJob ---------- *)
 Definition set_job (st : ast) (j' : job) : ast :=
@@ -222,7 +228,8 @@ Definition filter_pod (c : cfg) (st : ast) (p : pod) : bool :=
 (* ---------- environment / event-handler operations ---------- *)
 Inductive op :=
 | OAdd (j : Z) | ORound (fail : Z) | OSetPhase (j ph : Z) | ODelete (j : Z)
-| OSetReady (p : Z) (b : bool) | ODeletePod (p : Z) | OFilter (p : Z) | OEvict (j : Z) | ONop.
+| OSetReady (p : Z) (b : bool) | ODeletePod (p : Z) | OFilter (p : Z) | OEvict (j : Z)
+| OSetPodState (p v : Z) | ONop.
 
 Definition upd_job (st : ast) (jid : Z) (f : job -> job) : ast :=
   mkA (a_pods st) (a_wls st) (map (fun j => if j_id j =? jid then f j else j) (a_jobs st)).
@@ -250,9 +257,18 @@ Definition delete_job (j : job) : job :=
 Definition set_ready (b : bool) (p : pod) : pod :=
   if p_exists p
   then mkPod (p_id p) (p_ns p) (p_node p) (p_wl p) (p_prio p) (p_time p) b (p_forbid p) true
+             (p_term p) (p_dead p)
   else p.
 Definition delete_pod (p : pod) : pod :=
-  mkPod (p_id p) (p_ns p) (p_node p) (p_wl p) (p_prio p) (p_time p) (p_ready p) (p_forbid p) false.
+  mkPod (p_id p) (p_ns p) (p_node p) (p_wl p) (p_prio p) (p_time p) (p_ready p) (p_forbid p) false
+        (p_term p) (p_dead p).
+(* 1: delete (the pod stays, terminating); 2 / 3: phase Failed / Succeeded; 0: phase Running *)
+Definition set_pod_state (v : Z) (p : pod) : pod :=
+  if p_exists p
+  then mkPod (p_id p) (p_ns p) (p_node p) (p_wl p) (p_prio p) (p_time p) (p_ready p) (p_forbid p) true
+             (p_term p || (v =? 1))
+             (if v =? 1 then p_dead p else (v =? 2) || (v =? 3))
+  else p.
 
 (* result: -1 none, 0/1 verdict of Arbitrator.Filter *)
 Definition step (c : cfg) (st : ast) (o : op) : ast * Z :=
@@ -263,6 +279,7 @@ Definition step (c : cfg) (st : ast) (o : op) : ast * Z :=
   | ODelete j => (upd_job st j delete_job, -1)
   | OSetReady p b => (upd_pod st p (set_ready b), -1)
   | ODeletePod p => (upd_pod st p delete_pod, -1)
+  | OSetPodState p v => (upd_pod st p (set_pod_state v), -1)
   | OFilter pid =>
       match find_pod st pid with
       | Some p => if p_exists p then (st, if filter_pod c st p then 1 else 0) else (st, -1)
